@@ -57,6 +57,10 @@ type sop struct {
 	Start int64    `json:"start"`
 	Auto  bool     `json:"auto"`
 	Cols  []col    `json:"cols"`
+	// write: key mask applied to the frame before it is written (Frame.KeepKeys / ExcludeKeys):
+	// "keep" | "exclude" | "" ; MaskNames are channel names
+	Mask      string   `json:"mask"`
+	MaskNames []string `json:"mask_names"`
 }
 type icmd struct {
 	Cmd  string `json:"cmd"` // seek_first seek_last next prev next_auto prev_auto seek_ge seek_le valid set_bounds
@@ -474,6 +478,21 @@ func runCluster(c tcase) (res result) {
 					rfr = rfr.Append(k, ser)
 				}
 			}
+			if o.Mask != "" {
+				mk := []uint32{}
+				for _, n := range o.MaskNames {
+					if k, ok := res.Keys[n]; ok {
+						mk = append(mk, k)
+					}
+				}
+				if o.Mask == "keep" {
+					fr = fr.KeepKeys(channel.KeysFromUint32(mk))
+					rfr = rfr.KeepKeys(mk)
+				} else {
+					fr = fr.ExcludeKeys(channel.KeysFromUint32(mk))
+					rfr = rfr.ExcludeKeys(mk)
+				}
+			}
 			_, err := wp.dist.Write(fr)
 			if err == nil {
 				// Write does not wait for an acknowledgement (Sync=false): a frame the
@@ -482,7 +501,22 @@ func runCluster(c tcase) (res result) {
 				for _, k := range wp.keys {
 					inWriter[k] = true
 				}
+				masked := func(name string) bool {
+					if o.Mask == "" {
+						return false
+					}
+					in := false
+					for _, n := range o.MaskNames {
+						if n == name {
+							in = true
+						}
+					}
+					return (o.Mask == "keep") != in
+				}
 				for _, cc := range o.Cols {
+					if masked(cc.Name) {
+						continue // the validator skips masked entries
+					}
 					if k, ok := res.Keys[cc.Name]; !ok || !inWriter[k] {
 						_, err = wp.dist.Commit()
 						if err == nil {
